@@ -923,4 +923,46 @@ theorem allW_weightCnf : ∀ (cs : List (List Lit)) (p : Nat),
 theorem allW_eq_firstPrimes (cs : List (List Lit)) :
     allW (weightCnf cs 1) = firstPrimes (cs.map List.length).sum := allW_weightCnf cs 1
 
+/-! ## histories do not panic under the natural preconditions (non-vacuity of `Reach`) -/
+
+/-- in a reachable state with at least one level, `decide` of an in-range label is defined and
+updates the current model -/
+theorem step_decide_defined {cs : List (List Lit)} {nv : Nat} {d : HDriver} (hr : Reach cs nv d)
+    {m : PartialModel} {r : List PartialModel} (hm : d.models = m :: r) (l : Lit) (hl : l.var < nv) :
+    ∃ d', d.step (.decide l) = some d' ∧ d'.models = m.set l.var l.pol :: r := by
+  have hinv := inv_of_reach hr
+  have hlook := tbl_lookup hinv l
+  simp only [hl, if_true] at hlook
+  have hdec := decide_eq d.h l _ hlook
+  have hlv := hinv.levels
+  cases d with | mk h models =>
+  cases h with | mk w st p n =>
+  simp only at hm hlv hdec
+  subst hm
+  cases hlv with
+  | cons h1 h2 =>
+    simp only at hdec
+    rename_i top st
+    have hstep : HDriver.step ⟨⟨w, top :: st, p, n⟩, m :: r⟩ (.decide l) =
+        some ⟨⟨w, top.filter (fun i => !(clausesWith cs l).contains i) :: st, p, n⟩,
+          m.set l.var l.pol :: r⟩ := by
+      simp only [HDriver.step, hdec, Option.map_some]
+    exact ⟨_, hstep, rfl⟩
+
+theorem step_push_defined {cs : List (List Lit)} {nv : Nat} {d : HDriver} (hr : Reach cs nv d)
+    {m : PartialModel} {r : List PartialModel} (hm : d.models = m :: r) :
+    ∃ d', d.step .push = some d' ∧ d'.models = m :: m :: r := by
+  have hlv := (inv_of_reach hr).levels
+  cases d with | mk h models =>
+  cases h with | mk w st p n =>
+  simp only at hm hlv
+  subst hm
+  cases hlv with
+  | cons h1 h2 =>
+    rename_i top st
+    have hstep : HDriver.step ⟨⟨w, top :: st, p, n⟩, m :: r⟩ .push =
+        some ⟨⟨w, top :: top :: st, p, n⟩, m :: m :: r⟩ := by
+      simp only [HDriver.step, CnfHasher.push, Option.map_some]
+    exact ⟨_, hstep, rfl⟩
+
 end CnfUtil
